@@ -128,6 +128,7 @@ impl<'l> PktParser<'l> {
         &mut self,
         domainv: &mut Vec<dnspkt::Label>,
         depth: i32,
+        wire_len: &mut usize,
     ) -> Result<(), String> {
         loop {
             let prefix = self.get_u8()?;
@@ -138,6 +139,14 @@ impl<'l> PktParser<'l> {
                 }
                 p if p & 0b1100_0000 == 0 => {
                     // Uncompressed label
+                    /* RFC1035 Section 2.3.4: a name is at most 255 octets, counting the length
+                     * octet of each label and of the root.  Following pointers, a name can be
+                     * assembled that is far longer than the message it is in.
+                     */
+                    *wire_len += 1 + prefix as usize;
+                    if *wire_len + 1 > 255 {
+                        return Err("Name too long".into());
+                    }
                     domainv.push(dnspkt::Label::from(self.get_bytes(prefix as usize)?));
                 }
                 offset_high if offset_high & 0b1100_0000 == 0b1100_0000 => {
@@ -155,7 +164,7 @@ impl<'l> PktParser<'l> {
                         (((offset_high & !0b1100_0000) as usize) << 8) | (offset_low as usize);
                     let saved_offset = self.offset;
                     self.offset = offset;
-                    let ret = self.get_domain_into(domainv, depth + 1);
+                    let ret = self.get_domain_into(domainv, depth + 1, wire_len);
                     self.offset = saved_offset;
                     return ret;
                 }
@@ -166,7 +175,7 @@ impl<'l> PktParser<'l> {
 
     pub fn get_domain(&mut self) -> Result<dnspkt::Domain, String> {
         let mut domainv = Vec::new();
-        self.get_domain_into(&mut domainv, 1)
+        self.get_domain_into(&mut domainv, 1, &mut 0)
             .map(|_| dnspkt::Domain::from(domainv))
     }
 
